@@ -5516,6 +5516,10 @@ class Symbol:
             # The value of a choice symbol only depends on the selection of the choice. A user value of n
             # on a choice symbol never takes effect, so it does not make the symbol's value user-set.
             return bool(self.orig_type) and self.choice._user_selection is None
+        if self.orig_type in (INT, HEX, FLOAT) and self._user_value is not None and self.str_value == "":
+            # An option that ends up without any value does not have the user's value (it was ignored: invisible prompt,
+            # outside the range) - and an empty value can never be one: 'CONFIG_X=' is refused when it is loaded again.
+            return True
         return bool((self._user_value is None or self._has_active_indirect_set) and self.orig_type)
 
     def value_is_valid(self, value: Any) -> bool:
